@@ -57,6 +57,9 @@ pub fn bfs<E: Clone, K: Ord + Clone>(
     queue.push_back((vec![], first_enabled));
     let mut prefix_counter = 0u64;
     while let Some((h, enabled)) = queue.pop_front() {
+        if crate::util::watch::stopped() {
+            break;
+        }
         if h.len() >= max_depth {
             continue;
         }
